@@ -79,7 +79,7 @@ func c16ConfA() map[string]string {
 func c16ConfD() map[string]string {
 	return map[string]string{
 		"appender.rd.type": "Rec",
-		"logger.aux.type": "Logger", "logger.aux.level": "INFO", "logger.aux.tags": "_vfx_*", "logger.aux.appenderRef.ref": "rd",
+		"logger.aux.type":  "Logger", "logger.aux.level": "INFO", "logger.aux.tags": "_vfx_*", "logger.aux.appenderRef.ref": "rd",
 	}
 }
 func c16ConfB() map[string]string {
